@@ -98,12 +98,13 @@ func (v *memoryView) formatMemLine(ln memLine) string {
 	var sb strings.Builder
 
 	i := 0
-	for a := ln.addr; a < ln.addr+bytesPerLine; a++ {
-		if a != ln.addr {
+	for diff := model.Addr(0); diff < bytesPerLine; diff++ {
+		a := ln.addr + diff
+		if diff != 0 {
 			sb.WriteByte(' ')
 		}
 
-		if diff := (a - ln.addr); diff != 0 && diff%bytesSpace == 0 {
+		if diff != 0 && diff%bytesSpace == 0 {
 			sb.WriteString("  ")
 		}
 
